@@ -421,6 +421,38 @@ func genHostile(r *simkit.RNG) Archive {
 	plainNames := r.Chance(1, 2) // names stay plain, only links are hostile
 	plainLinks := r.Chance(1, 4)
 	tok := 0
+	if r.Chance(1, 10) {
+		// recipe: two links that together lead to dst's parent (each harmless as text), then
+		// entries that name real things out there by way of them
+		x, y := simkit.Pick(r, segsU), simkit.Pick(r, segsU)
+		if x != y {
+			mk := func(name, typ, link, body string) Entry {
+				e := Entry{Name: name, Type: typ, Mode: 0o644, Link: link, Body: body}
+				entryTimes(r, &e)
+				if typ == "dir" {
+					e.Mode = 0o755
+				}
+				return e
+			}
+			switch r.Intn(3) {
+			case 0:
+				ar.Entries = append(ar.Entries, mk(x, "sym", ".", ""), mk(y, "sym", x+"/..", ""))
+			case 1:
+				ar.Entries = append(ar.Entries, mk(x+"/q/", "dir", "", ""), mk(x+"/q/up", "sym", "../..", ""), mk(y, "sym", x+"/q/up/..", ""))
+			default:
+				ar.Entries = append(ar.Entries, mk(y, "sym", x+"/..", ""), mk(x, "sym", ".", ""))
+			}
+			for k := r.Range(1, 3); k > 0; k-- {
+				out := simkit.Pick(r, []string{"dst-evil/pwn", "dst-evil/keep", "victim", "shared/new", "shared/keep", "ext/file", "ext/dir/f", "dstx", "dst-evil/", "shared/"})
+				typ := "reg"
+				if strings.HasSuffix(out, "/") {
+					typ = "dir"
+				}
+				ar.Entries = append(ar.Entries, mk(y+"/"+out, typ, "", "PWN-via;"))
+			}
+			n = r.Range(0, 3)
+		}
+	}
 	for i := 0; i < n; i++ {
 		var e Entry
 		viaLink := false
